@@ -75,15 +75,12 @@ Lemma punavail_one_cases e bs be lo hi P start off end_ :
   feval e (pfree_c bs be lo hi P off) = true \/ (teval e be <= start) \/ (exists x, end_ = Some x /\ x <= teval e bs).
 Proof.
   unfold punavail_one. fold (pfree_c bs be lo hi P off).
-  destruct (start >? 0) eqn:Hs; destruct end_ as [x|]; cbn [app]; intros H.
+  destruct end_ as [x|]; cbn [app]; intros H.
   - rewrite feval_eq in H. cbn [existsb] in H. rewrite !orb_true_iff in H. destruct H as [H|[H|[H|H]]]; [now left| | |discriminate].
     + right. left. rewrite feval_eq in H. rewrite (teval_eq e (TC start)) in H. lia.
     + right. right. exists x. split; [reflexivity|]. rewrite feval_eq in H. rewrite (teval_eq e (TC x)) in H. lia.
   - rewrite feval_eq in H. cbn [existsb] in H. rewrite !orb_true_iff in H. destruct H as [H|[H|H]]; [now left| |discriminate].
     right. left. rewrite feval_eq in H. rewrite (teval_eq e (TC start)) in H. lia.
-  - rewrite feval_eq in H. cbn [existsb] in H. rewrite !orb_true_iff in H. destruct H as [H|[H|H]]; [now left| |discriminate].
-    right. right. exists x. split; [reflexivity|]. rewrite feval_eq in H. rewrite (teval_eq e (TC x)) in H. lia.
-  - now left.
 Qed.
 
 Theorem punavail_one_sound e bs be lo hi P start off end_ : 0 < P -> 0 <= lo -> lo < hi -> hi <= P ->
@@ -103,13 +100,10 @@ Proof.
   assert (Hcore : feval e core = true -> feval e (pfree_c (bsv w b) (bev w b) lo hi P off) = true).
   { unfold core. intros Hc. rewrite feval_eq, forallb_forall in Hc. apply Hc.
     destruct (ti_kind (be_task b)); [| |destruct Hk]; apply in_map_iff; exists (lo, hi); split; auto. }
-  destruct (start >? 0) eqn:Hs; destruct end_ as [x|]; cbn [app] in H.
+  destruct end_ as [x|]; cbn [app] in H.
   - rewrite feval_eq in H. cbn [existsb] in H. rewrite !orb_true_iff in H. destruct H as [H|[H|[H|H]]]; [left; auto| | |discriminate].
     + right. left. rewrite feval_eq in H. rewrite (teval_eq e (TC start)) in H. lia.
     + right. right. exists x. split; [reflexivity|]. rewrite feval_eq in H. rewrite (teval_eq e (TC x)) in H. lia.
   - rewrite feval_eq in H. cbn [existsb] in H. rewrite !orb_true_iff in H. destruct H as [H|[H|H]]; [left; auto| |discriminate].
     right. left. rewrite feval_eq in H. rewrite (teval_eq e (TC start)) in H. lia.
-  - rewrite feval_eq in H. cbn [existsb] in H. rewrite !orb_true_iff in H. destruct H as [H|[H|H]]; [left; auto| |discriminate].
-    right. right. exists x. split; [reflexivity|]. rewrite feval_eq in H. rewrite (teval_eq e (TC x)) in H. lia.
-  - left. auto.
 Qed.
